@@ -1966,7 +1966,7 @@ fn run_shell_case(tag: &str, script: &str) {
 /// (tag, script template); `%` is replaced by a per-instance suffix.  Tag `clean` = no catalogued
 /// divergence is involved.  Only built-ins of the real binary are used (`alias` without aliases is
 /// the do-nothing regular built-in, `typeset -p` the printer).
-const FRAGMENTS: [(&str, &str); 83] = [
+const FRAGMENTS: [(&str, &str); 82] = [
     ("clean", "x%=one; typeset -p x% >o%; x%=two; typeset -p x% >o%; read -r l <o%; typeset -p l"),
     ("clean", "x%=ap; typeset -p x% >>a%; x%=bp; typeset -p x% >>a%; umask >>a%"),
     ("clean", "set -C; alias >f1; s=$?; typeset -p s; typeset -p s >|f1; alias >n%; set +C; read -r l <f1; typeset -p l"),
@@ -2049,7 +2049,6 @@ const FRAGMENTS: [(&str, &str); 83] = [
     ("clean", "(ulimit -n 4; typeset -p PWD | read x; s=$?; typeset -p s); (ulimit -n 3; y=$(typeset -p PWD); s=$?; typeset -p s y); s=$?; typeset -p s"),
     ("clean", "kill -s USR1 999999; s=$?; typeset -p s; kill -s 0 $$; s=$?; typeset -p s; kill -s 0 999999; s=$?; typeset -p s"),
     ("clean", "trap 'g%=1' USR1; kill -s USR1 0; typeset -p g%; trap 'h%=1' USR2; (trap '' USR2; kill -s USR2 0; exit 3); s=$?; typeset -p s h%; trap - USR1 USR2"),
-    ("clean", "trap 't%=1' TERM; (trap '' TERM; kill 0; exit 4) & wait $!; s=$?; wait $!; s=$?; typeset -p s t%; trap - TERM"),
 ];
 
 fn gen_script(rng: &mut Rng, allow_known: bool) -> (String, String) {
